@@ -99,6 +99,21 @@ def run_case(case):
         # kernel sum - in particular the (fractional) width and parameter still apply
         coord = coord.astype(np.int64)
         sig += "|intcoord"
+    clay = (sum(case["rs"]) // 7) % 4
+    if clay and len(pts) >= 1:
+        # the coordinate array in another memory layout: Fortran order, an every-other-element
+        # view of a larger array, a reversed view (a trajectory sliced out of a larger one)
+        if clay == 1:
+            coord = np.asfortranarray(coord)
+        elif clay == 2:
+            big_ = np.zeros(tuple(2 * n for n in coord.shape), coord.dtype)
+            sl_ = tuple(slice(None, None, 2) for _ in coord.shape)
+            big_[sl_] = coord
+            coord = big_[sl_]
+        else:
+            rv_ = (slice(None, None, -1),) * (coord.ndim - 1) + (slice(None),)
+            coord = np.ascontiguousarray(coord[rv_])[rv_]
+        sig += "|coord-layout"
     x0, y0, c0 = x.copy(), y.copy(), coord.copy()
     try:
         if case["via"] == "func" and sum(case["rs"]) % 4 == 1:
@@ -211,6 +226,81 @@ def run_case(case):
     if not abs(lhs - rhs) <= t * sc:
         return violated(sig, "gridding is not the transpose of interpolate: <Ix,y> = %s, "
                         "<x,Gy> = %s" % (lhs, rhs), wit, mech="transpose", obs=obs)
+    xc = np.ascontiguousarray(x0).astype(np.complex128 if dt.kind == "c" else np.float64)
+    yc = np.ascontiguousarray(y0).astype(np.complex128 if dt.kind == "c" else np.float64)
+    npts = int(np.prod(pts)) if pts else 1
+    if sum(case["rs"]) % 3 == 1 and npts:
+        # history: the caller updates the SAME coordinate array in place (next frame of a
+        # moving trajectory) and calls again with the same object: the new positions count
+        sh_ = np.array([int(rng.integers(-3, 4)) for _ in range(nd)]) if coord.dtype.kind == "i" \
+            else np.round(rng.uniform(-1.5, 1.5, nd), 3)
+        coord += sh_.astype(coord.dtype)
+        cnew = np.array(coord, dtype=np.float64)
+        try:
+            if case["via"] == "func":
+                g2i = sp.interpolate(x, coord, kernel=kernel, width=width, param=param)
+                g2g = sp.gridding(y, coord, batch + grid, kernel=kernel, width=width,
+                                  param=param)
+            else:
+                g2i, g2g = A(x), A.H(y)
+        except Exception as e:
+            return violated(sig, "call after an in-place update of the coordinate array raised "
+                            "%s: %s" % (type(e).__name__, str(e)[:150]), wit,
+                            mech="coord-update")
+        r2i, a2i = O.interpolate(xc, cnew, kernel, width_l, param_l)
+        r2g, a2g = O.gridding(yc, cnew, batch + grid, kernel, width_l, param_l)
+        for name, got, ref, ab in (("interpolate", g2i, r2i, a2i), ("gridding", g2g, r2g, a2g)):
+            checks += 1
+            bound = rel * ab + 1e-300 + rel * 1e-3 * (np.max(ab) if ab.size else 0)
+            err = np.abs(got - ref)
+            if err.size and not float(np.max(err / bound)) <= 1.0:
+                return violated(sig, "after the caller moved the coordinates in place (same "
+                                "array object, shift %s) %s does not use the new positions: max "
+                                "|err| %.3g" % (sh_.tolist(), name, float(np.max(err))),
+                                dict(wit, shift=sh_.tolist()), mech="coord-update", obs=obs)
+        coord[...] = c0                       # (exactly; subtracting the shift would round)
+        sig += "|coord-update"
+    if sum(case["rs"]) % 5 == 2 and npts and case["via"] == "func":
+        # samples outside every kernel support have NO influence: poison them.  Likewise a
+        # non-finite k-space sample spoils only the grid points inside its own support
+        used = set()
+        cf_ = cfloat.reshape(-1, nd)
+        for c_ in cf_:
+            used.update(i_ for i_, _ in O.taps(c_, grid, kernel, width_l, param_l))
+        free = [i_ for i_ in np.ndindex(*grid) if i_ not in used]
+        bad = [np.nan, np.inf, -np.inf][sum(case["rs"]) % 3]
+        if free:
+            xp_ = np.array(x0, copy=True)
+            for i_ in free:
+                xp_[(Ellipsis,) + i_] = bad
+            gp = sp.interpolate(xp_, coord, kernel=kernel, width=width, param=param)
+            checks += 1
+            if not np.array_equal(gp, got_i, equal_nan=True):
+                nbad = int(np.sum(~np.isfinite(gp) & np.isfinite(got_i)))
+                return violated(sig, "interpolate: %d grid samples outside every kernel support "
+                                "were set to %s and changed %d of the interpolated values" % (
+                                    len(free), bad, nbad), wit, mech="outside-support:interpolate",
+                                obs=obs)
+            sig += "|poison-x"
+        j0 = int(rng.integers(npts))
+        mine = set(i_ for i_, _ in O.taps(cf_[j0], grid, kernel, width_l, param_l))
+        others = [i_ for i_ in np.ndindex(*grid) if i_ not in mine]
+        if others:
+            yz = np.array(y0, copy=True).reshape(tuple(batch) + (npts,))
+            yz[..., j0] = 0
+            yp_ = yz.copy()
+            yp_[..., j0] = bad
+            gz = sp.gridding(yz.reshape(y0.shape), coord, batch + grid, kernel=kernel,
+                             width=width, param=param)
+            gp = sp.gridding(yp_.reshape(y0.shape), coord, batch + grid, kernel=kernel,
+                             width=width, param=param)
+            sel = tuple(np.array([i_[a] for i_ in others]) for a in range(nd))
+            checks += 1
+            if not np.array_equal(gp[(Ellipsis,) + sel], gz[(Ellipsis,) + sel], equal_nan=True):
+                return violated(sig, "gridding: a %s sample changed grid points outside its own "
+                                "kernel support" % bad, wit, mech="outside-support:gridding",
+                                obs=obs)
+            sig += "|poison-y"
     taps_per_pt = float(np.max(ab_i > 0)) if ab_i.size else 0
     nontrivial = any(len(O.taps(c, grid, kernel, width_l, param_l)) >= 2
                      for c in cfloat.reshape(-1, nd)[:5])
